@@ -55,6 +55,10 @@ structure Params where
   /-- C27: the map decoder pre-allocates `min(len, mapCap)` entries (`true`) or `max(len, mapCap)`. -/
   mapCapMin : Bool
   mapCap : Nat
+  /-- The number of entries the map decoder *reads*: the count found in the input (`none`), or
+  that count capped (`some c`: `for _ in 0..min(len, c)`) — which silently drops entries. Kept
+  apart from the pre-allocation policy above on purpose. -/
+  mapLoopCap : Option Nat
   deriving DecidableEq, Repr
 
 /-! ## Big-endian integers -/
@@ -301,6 +305,12 @@ def decMapLoop : Nat → List (Nat × Bytes) → Dec (List (Nat × Bytes))
     let h ← readExact 32
     if acc.any (fun e => e.1 == k) then fail .format else decMapLoop n ((k, h) :: acc)
 
+/-- How many entries the map decoder reads for an announced count of `len`. -/
+def mapLoopCount (P : Params) (len : Nat) : Nat :=
+  match P.mapLoopCap with
+  | none => len
+  | some c => min len c
+
 /-- `parse`. -/
 def dec (P : Params) : FT → Dec Val
   | .u8 => do pure (.n (← readBE 1))
@@ -346,7 +356,7 @@ def dec (P : Params) : FT → Dec Val
   | .mapU64Hash => do
     let len ← readBE 8
     alloc (mapPrealloc P len)
-    pure (.m (← decMapLoop len []))
+    pure (.m (← decMapLoop (mapLoopCount P len) []))
   | .updStatus => do
     let tag ← readBE 1
     if tag = P.stSuccessR then do
@@ -412,7 +422,7 @@ def paramsOk (P : Params) : Bool :=
   decide (P.stAttemptW < 256) &&
   decide (P.objHashNoneW = P.objHashNoneR) && decide (P.objHashSomeW = P.objHashSomeR) &&
   decide (P.objHashNoneR ≠ P.objHashSomeR) && decide (P.objHashNoneW < 256) &&
-  decide (P.objHashSomeW < 256)
+  decide (P.objHashSomeW < 256) && P.mapLoopCap.isNone
 
 /-- The two C27 repairs are in place. -/
 def allocOk (P : Params) : Bool := P.readChecked && P.mapCapMin
